@@ -960,6 +960,34 @@ class StateWorld(Run):
             self.probes["masked_update_on_mixed_state"] += 1
         return self._digest(name)
 
+    def _p_tmapstate(self, rng):
+        """a map obtained FROM a state (to_map(), its inverse, or diagonalize(state)) applied to a
+        state: whatever a state carries in its destabilizer rows becomes images of a map."""
+        return {"op": "tmapstate", "slot": self._pick(rng), "src": self._pick(rng),
+                "how": rng.choice(["to_map", "to_map", "inverse", "diag_fwd", "diag_bwd"])}
+
+    def _a_tmapstate(self, op):
+        name, st = self._state(op)
+        if op["src"] not in self.slots:
+            raise Skip()
+        src = self.slots[op["src"]]
+        how = op["how"]
+
+        def f():
+            if how in ("to_map", "inverse"):
+                m = src.to_map()
+                if how == "inverse":
+                    m = m.inverse()
+                st.transform_by(m)
+            else:
+                if int(src.r) != 0:
+                    raise Skip()
+                circ = self.pc.diagonalize(src.copy())
+                (circ.forward if how == "diag_fwd" else circ.backward)(st)
+        self._env_call(name, "tmapstate", f)
+        self.stats["config:map_from_state_applied"] += 1
+        return self._digest(name)
+
     def _a_gate(self, op):
         name, st = self._state(op)
         seams.prepare_call(op)
